@@ -117,8 +117,13 @@ PosOfIds(m, S) == {p \in AllPos(m) : m.files[p + 1].id \in S}
 Members(m, t)  == IF t \in TagNames(m) THEN PosOfIds(m, MemOf(m, t)) ELSE {}
 \* a tag that does not exist has no files: an all-of query naming it selects nothing,
 \* an any-of query ignores it
-FilesAll(m, T) == IF T \subseteq TagNames(m) THEN {p \in AllPos(m) : \A t \in T : p \in Members(m, t)} ELSE {}
-FilesAny(m, T) == UNION {Members(m, t) : t \in T}
+\* (position p is selected by tag t iff the id of the file at p is a member of t)
+FilesAll(m, T) ==
+  IF T \subseteq TagNames(m)
+  THEN LET mems == {MemOf(m, t) : t \in T} IN {p \in AllPos(m) : \A S \in mems : m.files[p + 1].id \in S}
+  ELSE {}
+FilesAny(m, T) ==
+  LET mems == {MemOf(m, t) : t \in T \cap TagNames(m)} IN {p \in AllPos(m) : \E S \in mems : m.files[p + 1].id \in S}
 
 RECURSIVE SzSumFrom(_, _, _)
 SzSumFrom(files, P, k) ==
@@ -143,7 +148,7 @@ ByPrioRange(m, bp, lo, hi) == {p \in AllPos(m) : LET x == EffPrio(m.files[p + 1]
 \* bits at positions >= n are zero
 RECURSIVE MaskByte(_, _, _)
 MaskByte(S, b, k) == IF k > 7 THEN 0 ELSE (IF (8 * b + k) \in S THEN 2 ^ (7 - k) ELSE 0) + MaskByte(S, b, k + 1)
-MaskBytes(S, n)   == [b \in 1..((n + 7) \div 8) |-> MaskByte(S \cap (0..(n - 1)), b - 1, 0)]
+MaskBytes(S, n)   == LET SS == S \cap (0..(n - 1)) IN [b \in 1..((n + 7) \div 8) |-> MaskByte(SS, b - 1, 0)]
 
 BitIsSet(byte, k)     == (byte \div (2 ^ (7 - k))) % 2 = 1
 MaskMembers(mask, n)  == {i \in 0..(n - 1) : (i \div 8) + 1 <= Len(mask) /\ BitIsSet(mask[(i \div 8) + 1], i % 8)}
